@@ -2,6 +2,7 @@
 //! usage: rfverif <property> --tier quick|thorough --seed N --out DIR
 #![feature(rustc_private)]
 extern crate rustc_lexer;
+mod c01;
 mod c02;
 mod c07;
 mod c09;
@@ -54,6 +55,7 @@ fn main() {
         i += 1;
     }
     let code = match prop.as_str() {
+        "c01" => c01::run(&tier, seed, &out),
         "c02" => c02::run(&tier, seed, &out),
         "c07" => c07::run(&tier, seed, &out),
         "c09" => c09::run(&tier, seed, &out),
